@@ -20,11 +20,7 @@
 (* alphabet, Trace_Stat takes them from a recorded trace.  Both call       *)
 (* Step(ev).                                                               *)
 (***************************************************************************)
-EXTENDS Integers, Sequences, FiniteSets, FiniteSetsExt, TLC
-
-KindSeq == <<"pass", "block", "complete", "error", "rt">>
-MAXRT == 60000          \* documented "no response time recorded" reading
-ZB == [pass |-> 0, block |-> 0, complete |-> 0, error |-> 0, rt |-> 0, minrt |-> MAXRT]
+EXTENDS StatLib
 
 VARIABLES
     on,     \* FALSE until the first reset event
@@ -38,84 +34,6 @@ VARIABLES
 svars == <<on, n, L, wins, now, ghost, ring>>
 
 Interval == n * L
-
-(* ---------------------------------------------------------------------- *)
-(* Construction predicates (the documented reuse condition)                *)
-(* ---------------------------------------------------------------------- *)
-ArrayOK(nn, ii) == nn > 0 /\ ii % nn = 0
-\* interval 0 with a positive bucket count is outside the quantifier (bucket length >= 1)
-ArrayAsserted(nn, ii) == ~(nn > 0 /\ ii = 0)
-
-WindowOK(k, J, nn, ii) ==
-    /\ k > 0 /\ J > 0 /\ J % k = 0
-    /\ nn > 0 /\ ii > 0 /\ ii % nn = 0
-    /\ ii % J = 0
-    /\ (J \div k) % (ii \div nn) = 0
-
-(* ---------------------------------------------------------------------- *)
-(* Tier A readings, parametrised by the state they are taken in            *)
-(* ---------------------------------------------------------------------- *)
-Start(len, t) == t - (t % len)
-
-GBuckets(g, lo, hi) == {b \in DOMAIN g : lo <= b /\ b <= hi}
-GSum(g, lo, hi, kind) == FoldSet(LAMBDA b, acc : acc + g[b][kind], 0, GBuckets(g, lo, hi))
-GMin(g, lo, hi) ==
-    FoldSet(LAMBDA b, acc : IF g[b].minrt < acc THEN g[b].minrt ELSE acc, MAXRT, GBuckets(g, lo, hi))
-
-WinRange(len, t, w) == LET end == Start(len, t) IN [lo |-> end - w.J + len, hi |-> end]
-
-\* The window (k, J) read at time t over ghost g of an array with bucket length len.
-Reading(g, len, t, w) ==
-    LET r == WinRange(len, t, w) IN
-    [ sum   |-> [i \in 1..5 |-> GSum(g, r.lo, r.hi, KindSeq[i])],
-      minrt |-> GMin(g, r.lo, r.hi) ]
-
-\* A look-back reading (qps_previous) is owed only if window + look-back fit the ring.
-PrevFits(nn, len, w) == w.J + (w.J \div w.k) <= nn * len
-
-\* Raw array reading (all non-deprecated buckets): the n most recent bucket starts, and at an
-\* exact bucket boundary possibly also the bucket that started one interval ago.
-RawNarrow(g, nn, len, t, kind) == GSum(g, Start(len, t) - nn * len + len, Start(len, t), kind)
-RawWide(g, nn, len, t, kind)   == GSum(g, t - nn * len, Start(len, t), kind)
-
-(* ---------------------------------------------------------------------- *)
-(* Tier B: the ring                                                        *)
-(* ---------------------------------------------------------------------- *)
-Idx(nn, len, t) == (t \div len) % nn
-
-Deprecated(s, t, ii) == t > s /\ t - s > ii
-
-Touch(rg, nn, len, t) ==
-    LET i == Idx(nn, len, t)
-        s == Start(len, t)
-    IN  IF rg[i].start = -1 THEN [rg EXCEPT ![i].start = s]             \* empty: stamp only
-        ELSE IF rg[i].start = s THEN rg                                  \* current
-        ELSE IF s > rg[i].start THEN [rg EXCEPT ![i] = [start |-> s, val |-> ZB]]   \* reuse
-        ELSE rg                                                          \* time went back: refused
-
-AddTo(v, kind, c) ==
-    IF kind = "rt"
-    THEN [v EXCEPT !.rt = @ + c, !.minrt = IF c < @ THEN c ELSE @]
-    ELSE [v EXCEPT ![kind] = @ + c]
-
-RSlots(rg, nn, len, t, lo, hi) ==
-    {i \in 0..(nn - 1) : /\ rg[i].start # -1
-                         /\ ~Deprecated(rg[i].start, t, nn * len)
-                         /\ lo <= rg[i].start /\ rg[i].start <= hi}
-RSum(rg, nn, len, t, lo, hi, kind) ==
-    FoldSet(LAMBDA i, acc : acc + rg[i].val[kind], 0, RSlots(rg, nn, len, t, lo, hi))
-RMin(rg, nn, len, t, lo, hi) ==
-    FoldSet(LAMBDA i, acc : IF rg[i].val.minrt < acc THEN rg[i].val.minrt ELSE acc, MAXRT,
-            RSlots(rg, nn, len, t, lo, hi))
-
-RingReading(rg, nn, len, t, w) ==
-    LET r == WinRange(len, t, w) IN
-    [ sum   |-> [i \in 1..5 |-> RSum(rg, nn, len, t, r.lo, r.hi, KindSeq[i])],
-      minrt |-> RMin(rg, nn, len, t, r.lo, r.hi) ]
-
-RingRaw(rg, nn, len, t, kind) ==
-    FoldSet(LAMBDA i, acc : acc + rg[i].val[kind], 0,
-            {i \in 0..(nn - 1) : rg[i].start # -1 /\ ~Deprecated(rg[i].start, t, nn * len)})
 
 (* The refinement: every reading of the ring equals the reading of the ghost. *)
 RingRefines ==
